@@ -47,6 +47,9 @@ enum PVal {
     /// authority of p masks attributes / facets (field mask), else column 0 in both
     MaskedAttr(usize),
     MaskedFacet(usize),
+    /// the stance / confidence of a VISIBLE assertion: differs only when that field is masked
+    MaskedStance(usize),
+    MaskedConfidence(usize),
     /// the id of the k-th transaction AFTER the common part of the script (in S2 a commit of the
     /// hidden tail, in S1 one of the padding commits on a hidden element)
     TailTx(u64),
@@ -100,6 +103,8 @@ struct World {
     /// fields", and only for fields that every authority of p masks)
     vary_attrs: bool,
     vary_facets: bool,
+    vary_stance: bool,
+    vary_confidence: bool,
     /// Space sequence after the common part of the script
     base_seq: u64,
     /// Space sequence before the first step of the script
@@ -141,6 +146,8 @@ impl World {
                     PVal::SeqOfStep(i) => json!(self.start_seq + *i as u64 + 1),
                     PVal::MaskedAttr(i) => script.hidden_vals[if self.vary_attrs { variant } else { 0 }][*i].clone(),
                     PVal::MaskedFacet(i) => script.hidden_vals[if self.vary_facets { variant } else { 0 }][*i].clone(),
+                    PVal::MaskedStance(i) => script.hidden_vals[if self.vary_stance { variant } else { 0 }][*i].clone(),
+                    PVal::MaskedConfidence(i) => script.hidden_vals[if self.vary_confidence { variant } else { 0 }][*i].clone(),
                 },
             );
         }
@@ -299,14 +306,20 @@ fn gen_script(rng: &mut Rng, size: usize) -> Script {
             let ev = rng.pick(&s.evidence).clone();
             let cite = rng.bool();
             let hidden_as = rng.chance(1, 3);
-            let conf = if hidden_as {
-                hid(&mut s, json!((10 + rng.below(90)) as f64 / 100.0), json!((10 + rng.below(90)) as f64 / 100.0))
-            } else {
-                PVal::Lit(json!((10 + rng.below(90)) as f64 / 100.0))
+            let conf = match hid(&mut s, json!((10 + rng.below(90)) as f64 / 100.0), json!((10 + rng.below(90)) as f64 / 100.0)) {
+                PVal::Hidden(i) if !hidden_as => PVal::MaskedConfidence(i),
+                v => v,
             };
             let stance = *rng.pick(&["support", "support", "reject"]);
+            // a visible assertion's stance differs between S1 and S2 only where p's mask hides it
+            let other_stance = if stance == "support" { "reject" } else { "support" };
+            let stance_val = match hid(&mut s, json!(stance), json!(if hidden_as || rng.bool() { other_stance } else { stance })) {
+                PVal::Hidden(i) if !hidden_as => PVal::MaskedStance(i),
+                v => v,
+            };
             params.push((format!("actor{k}"), PVal::Ref(actor)));
             params.push((format!("conf{k}"), conf));
+            params.push((format!("stance{k}"), stance_val));
             let st = if cite {
                 params.push((format!("ev{k}"), PVal::Ref(ev)));
                 format!(" SET STRUCTURAL {{ (\"evidence\", :ev{k}) {{role: \"support\"}} }}")
@@ -314,7 +327,7 @@ fn gen_script(rng: &mut Rng, size: usize) -> Script {
                 String::new()
             };
             cmd.push_str(&format!(
-                "CREATE ASSERTION ?a{k} {{ SET FIELDS {{ proposition: ?p, asserted_by: :actor{k}, stance: \"{stance}\", mode: \"observed\", confidence: :conf{k} }}{st} }}\n"
+                "CREATE ASSERTION ?a{k} {{ SET FIELDS {{ proposition: ?p, asserted_by: :actor{k}, stance: :stance{k}, mode: \"observed\", confidence: :conf{k} }}{st} }}\n"
             ));
             binds.push((format!("a{k}"), asym.clone()));
             new_as.push((asym, hidden_as));
@@ -693,6 +706,8 @@ async fn build(name: &str, script: &Script, cfg: &GovCfg, variant: usize, tail: 
         vary_hidden: !masked_mode,
         vary_attrs: masked_mode && masks(cfg, "attributes"),
         vary_facets: masked_mode && masks(cfg, "facets"),
+        vary_stance: masked_mode && masks(cfg, "stance"),
+        vary_confidence: masked_mode && masks(cfg, "confidence"),
         base_seq: 0,
         start_seq: 0,
     };
@@ -1290,7 +1305,14 @@ fn ni_case(case: u64, rng: &mut Rng, st: &mut Stats, thorough: bool) {
                     }
                 }
             }
-            if a1 != a2 {
+            // an Epistemic Projection may be computed from assertions whose raw stance / confidence
+            // the caller's mask hides (Spec 29.4: `project` is a permission of its own and "MAY allow
+            // a projected result without revealing raw Evidence"): not judged, counted
+            let judged = !(q.family == "belief" && (w2.vary_stance || w2.vary_confidence));
+            if !judged {
+                st.count("belief_pairs_not_judged_projection_may_use_masked_fields");
+            }
+            if judged && a1 != a2 {
                 // is it noise? build S1 once more and look at the same query
                 if w1b.is_none() {
                     let wb = build(&format!("c19_{case}"), &script, &cfg, 0, false, mode).await?.0;
@@ -1441,7 +1463,7 @@ fn timeline_case(case: u64, rng: &mut Rng, st: &mut Stats) {
         let nx = fresh_nexus(&format!("c19_tl_{case}")).await?;
         let gov = nx.governance();
         let mut policy = vec![];
-        let mut w = World { nx: nx.clone(), sym: BTreeMap::new(), vary_hidden: false, vary_attrs: false, vary_facets: false, base_seq: 0, start_seq: 0 };
+        let mut w = World { nx: nx.clone(), sym: BTreeMap::new(), vary_hidden: false, vary_attrs: false, vary_facets: false, vary_stance: false, vary_confidence: false, base_seq: 0, start_seq: 0 };
         run_steps(&mut w, &script, &script.steps, 0).await?;
         // p's authority; for "expiry" the root grant lapses a few milliseconds from now
         let inst = if event == "expiry" {
@@ -1631,7 +1653,7 @@ fn delegation_case(case: u64, rng: &mut Rng, st: &mut Stats) {
     let res: Result<(), String> = vcore::run::block_on(async {
         let nx = fresh_nexus(&format!("c19_dg_{case}")).await?;
         let gov = nx.governance();
-        let mut w = World { nx: nx.clone(), sym: BTreeMap::new(), vary_hidden: false, vary_attrs: false, vary_facets: false, base_seq: 0, start_seq: 0 };
+        let mut w = World { nx: nx.clone(), sym: BTreeMap::new(), vary_hidden: false, vary_attrs: false, vary_facets: false, vary_stance: false, vary_confidence: false, base_seq: 0, start_seq: 0 };
         run_steps(&mut w, &script, &script.steps, 0).await?;
         let mut none = vec![];
         let inst = install(&nx, &cfg, P, "", &mut none).await?;
